@@ -120,10 +120,15 @@ CLAIMED = {
         note="The two-sided timing guarantee of the TCP watchdog, exactly-once under arbitrary event sequences and a raising user callback on the reader thread are not decided.",
         ref="DESIGN.md section 4 C20",
     ),
+    "C19": dict(
+        technique="reflection of MRO-resolved class attributes and method owners of the protocol classes; path analysis of the TCP reader loop, handle_line, both add_job variants and the pump; sibling comparison of the two flavours",
+        text="Decides structural necessary conditions only, NOT the differential statement (equal state and output for every segmentation of every byte stream and for both flavours): framing is pyserial's with effective terminator b'\\n' and utf-8 replacement decoding for every protocol class (a repo override of data_received / handle_packet must hand its unchanged argument to the inherited method exactly once on every path); the TCP reader loop - the only repo-owned chunk hand-over - passes every received chunk unchanged, once, in order; handle_line is one function for the threaded and asyncio protocol of a family (or their path summaries agree), keeps no state and only enqueues (gateway.logic, (line,)); deferred and inline job execution agree (append the pair / pop, run once, send exactly that reply / run once, send exactly that reply); both MQTT flavours share one recv that enqueues logic with the mapped command.",
+        note="Not decided: the equality of behaviours itself, pyserial's Packetizer / LineReader and the pyserial / asyncio reader loops (external), FIFO order (C16-R4). Each rule fires only on an edit that changes what is framed, decoded, handed over, enqueued, run or sent; benign twins (delegating data_received override, `if reply:` before send, local aliases) are silent in the self-test.",
+        ref="DESIGN.md section 4 C19",
+    ),
 }
 
 NOT_APPLICABLE = {
-    "C19": "line framing and chunk reassembly are implemented by pyserial's Packetizer/LineReader (third-party code) and flavour equivalence is a differential statement about two executions; no necessary structural condition exists that would not also fire on behaviour-preserving edits",
 }
 
 PENDING_REASON = "rule not built yet (work in progress; see DESIGN.md section 9)"
